@@ -23,6 +23,22 @@ CHECKS = {
               "C-vs-Python bit agreement on random reals."),
         technique="TLA+ refinement check (TLC) + exhaustive spec-to-code replay of exported behaviours",
     ),
+    "C08": dict(
+        cat="model_checking",
+        text=("specs/OdeGen.tla models the generator interface as a state machine over SYMBOLIC columns (terms ic / zero / "
+              "step(prev,f0,f1)) with the hidden cdforces cache; TLC checks on every history of send(i)/add-on/finalize up to the "
+              "bound (quick NT=4, 7 actions: 4500 states; thorough NT=5, 9 actions: 88k states) that completed columns equal the "
+              "batch recursion of the force history in effect (Valid, FinalIsBatch), the cache is coherent whenever used, and no "
+              "action touches a column beyond the one addressed. Every exported maximal history is then replayed into the real "
+              "generators (SolveUnc real / complex / cd_as_force, SolveCDF, SolveExp2; order 0/1; rb/el/rf blocks; m None/vector/"
+              "matrix; zero, d0/v0, static ic) and after EVERY action ts._force (exactly), d and v (all columns incl. the stale ones "
+              "the spec predicts) are compared with the terms interpreted by the batch solver's two-sample tsolve; finalize() d,v,a "
+              "vs batch tsolve; get_f2x vs measured unit add-on increments (order 1)."),
+        ref="4/C08",
+        note=("Trusted: TLC; the batch solver as oracle for Step (the property's own oracle); tolerance 1e-9 relative to the history norm. "
+              "Quick replays a seeded sample of maximal histories per configuration, thorough replays 200 per configuration of the larger model."),
+        technique="TLA+ model of call histories with symbolic terms (TLC exhaustive) + replay of exported histories into the real generators",
+    ),
 }
 
 NOT_YET = {}
